@@ -258,7 +258,7 @@ func checkC16(t *testing.T, job *Job, res *Result) {
 		if tier == "thorough" {
 			b = Bounds{D: 3, S: 0}
 		}
-		runS(t, job, res, "C16", scs, b, 0)
+		runS(t, job, res, "C16", withReversed(scs), b, 0)
 	}
 	res.Engine = "H+E+S"
 	res.Rule += "; engine S: a sub-path service under a TLS root (with and without redirect) while a command that leaves the host's policy unchanged runs (unrelated deploy/redeploy/remove, redeploy of the sub-path or root service with the same flags, another sub-path service): a plain-HTTP and a TLS request at every schedule within the bounds must see the root's policy"
